@@ -62,6 +62,8 @@ pub struct TrCfg {
     pub multi_writer: bool,
     /// the prefix runs exactly pre_send sends and pre_recv receives (concrete resting state)
     pub exact: bool,
+    /// forced-site mode (sched::force): 0 = off, else (site, mandatory operations, who runs n-th)
+    pub force: (u16, u8, [u8; 4]),
 }
 
 pub const QUICK: TrCfg = TrCfg {
@@ -76,12 +78,16 @@ pub const QUICK: TrCfg = TrCfg {
     teardown: false,
     multi_writer: false,
     exact: false,
+    force: (0, 0, [1; 4]),
 };
 
 pub fn traffic<F: Fl, const TOPO: u8, const OUTER: usize, const L0: u8, const L1: u8, const L2: u8>(c: &TrCfg) {
     ledger::reset();
     payload::reset();
     sched::configure(c.depth, c.budget, c.kinds, c.per_site);
+    if c.force.0 != 0 {
+        sched::force(c.force.0, c.force.1, c.force.2);
+    }
     let mut w = World::<F>::new(c.cap);
     set_world::<F>(&mut *w);
     let nstreams: u8 = if TOPO == 3 { 2 } else { 1 };
@@ -302,6 +308,7 @@ pub const IN_CLONE: TrCfg = TrCfg {
     teardown: true,
     multi_writer: false,
     exact: true,
+    force: (0, 0, [1; 4]),
 };
 
 // consumer A is in the middle of clone(); its sibling B on the same stream and the producer run there
@@ -315,6 +322,9 @@ tr!(c04_mp_view_inview, hk_c04_mp_view_inview, MpT, 5, 1, [3, 1, 0], TrCfg { per
 tr!(c18_bc_shared_inclone_mw, hk_c18_bc_shared_inclone_mw, BcT, 2, 1, [2, 1, 1], TrCfg { multi_writer: true, ..IN_CLONE });
 // consumer A is in the middle of clone() when its sibling handle is dropped (consumers 2 -> 1)
 tr!(c06_bc_sibdrop_inclone, hk_c06_bc_sibdrop_inclone, BcT, 6, 1, [1, 1, 1], TrCfg { teardown: false, budget: 2, per_site: 2, pre_send: 2, pre_recv: 1, ..IN_CLONE });
+// the same with the sibling's drop ALWAYS inside A's first clone() (a concrete place), then optionally the producer
+tr!(c06_bc_sibdrop_forced, hk_c06_bc_sibdrop_forced, BcT, 6, 1, [2, 1, 1], TrCfg { teardown: false, budget: 3, per_site: 3, pre_send: 2, pre_recv: 1, force: (1, 1, [2, 1, 1, 1]), ..IN_CLONE });
+tr!(c06_bc_sibdrop_forced_n1, hk_c06_bc_sibdrop_forced_n1, BcT, 6, 1, [2, 1, 1], TrCfg { cap: 1, n: 1, teardown: false, budget: 3, per_site: 3, pre_send: 1, pre_recv: 0, force: (1, 1, [2, 1, 1, 1]), ..IN_CLONE });
 tr!(c06_bc_sibdrop_all, hk_c06_bc_sibdrop_all, BcB, 6, 1, [1, 1, 1], TrCfg { pre_send: 2, pre_recv: 1, ..QUICK });
 // all preemption sites, instrumented payload, teardown at the end
 tr!(c04_bc_shared_all, hk_c04_bc_shared_all, BcT, 2, 1, [1, 1, 1], TrCfg { pre_send: 2, pre_recv: 1, teardown: true, ..QUICK });
